@@ -70,6 +70,27 @@ class Adapter:
             div('same_process_differs', {})
         if {id(n) for n in g1.nodes} & {id(n) for n in g2.nodes}:
             div('graphs_share_nodes', {})
+        # interleaved: both graphs are generated first, then attackers are attached and the analysis is run on each;
+        # every reference of a graph stays inside that graph, and the result is the same as graph-by-graph
+        ga = AttackGraph(ctx.lang_graph, m)
+        gb = AttackGraph(ctx.lang_graph, m)
+        ga.attach_attackers()
+        gb.attach_attackers()
+        calculate_viability_and_necessity(ga)
+        calculate_viability_and_necessity(gb)
+        res['steps'] += 2
+        for nm, g in (('first', ga), ('second', gb)):
+            own = {id(n) for n in g.nodes}
+            own_atk = {id(a) for a in g.attackers}
+            foreign = [a.name for a in g.attackers if any(id(n) not in own for n in list(a.reached_attack_steps) + list(a.entry_points))]
+            foreign += [n.full_name for n in g.nodes if any(id(a) not in own_atk for a in n.compromised_by)
+                        or any(id(c) not in own for c in list(n.children) + list(n.parents))]
+            if foreign:
+                div('interleaved_graphs_share_objects', {'graph': nm, 'where': foreign[:5]})
+                break
+            if json.dumps(g._to_dict(), default=str) != s1:
+                div('interleaved_generation_differs', {'graph': nm})
+                break
         if json.dumps(m._to_dict(), sort_keys=True, default=str) != snap_model:
             div('model_changed', {})
         if ctx.spec != snap_spec or ctx.lang_graph._lang_spec != snap_spec:
